@@ -4,7 +4,7 @@
    execution that P rejects is reported (REJECT line) and skipped, the run goes on with the next one.
 
    Events (ndjson):
-     {"k":"reset","id":..,"exp":{uri:{"route":i|0,"params":{..}}},"kf":[open findings]}
+     {"k":"reset","id":..,"exp":{uri:{"route":i|0,"params":[[name,value]..]}},"kf":[open findings]}
      environment:  connect r | send r u op e | disconnect r | shutdown | settle | end | (timeout, fail, release, ... : ignored)
      observations: agent_run u route params n | started u n | init_failed u n | deliver u n op e | stopping u n |
                    stopped / failed / finished u n | rt_end u | recv r kind u b | closed r code | eof r | server_end ok
@@ -36,7 +36,6 @@ MinOf(S) == CHOOSE x \in S : \A y \in S : x <= y
 NoInst == [n |-> 0, st |-> "none", ag |-> FALSE, rt |-> FALSE, up |-> FALSE]
 SeqToSet(q) == {q[j] : j \in 1..Len(q)}
 RemoveAt(q, j) == [k \in 1..(Len(q) - 1) |-> IF k < j THEN q[k] ELSE q[k + 1]]
-Fn(x) == IF x = <<>> THEN <<>> ELSE x          \* an empty JSON object / array is the empty function
 
 TraceInit == /\ i = 1 /\ cid = "-" /\ dead = TRUE /\ exp = <<>> /\ open = {}
              /\ rm = [r \in Rs |-> "none"] /\ out = [r \in Rs |-> <<>>] /\ ins = <<>> /\ addr = [r \in Rs |-> {}]
@@ -49,20 +48,29 @@ Reset(e) == /\ cid' = e.id /\ exp' = e.exp /\ open' = SeqToSet(e.kf)
             /\ shut' = FALSE /\ fin' = FALSE /\ owe' = {}
 
 Routed(u) == u \in DOMAIN exp /\ exp[u].route # 0
-\* the instance the envelope was sent towards has gone since (the envelope was in flight to it)
-LostInFlight(x) == x.st = "live" /\ (ins[x.u].n > x.n \/ ins[x.u].st # "live")
+\* the instance that was registered when the envelope was sent (alive or on its way out) has begun to stop / is gone:
+\* the envelope may have been written into a channel nobody reads any more
+LostInFlight(x) == x.st \in {"live", "stopping", "ended"} /\ (ins[x.u].n > x.n \/ ins[x.u].st # "live")
 \* the envelope was sent while the node's instance was on its way out, and that instance still is
 Waiting(x) == x.st \in {"stopping", "ended"} /\ ins[x.u].n = x.n /\ ins[x.u].st \in {"stopping", "ended"}
-\* oldest outstanding command / sync of r for node u that is not lost in flight (0: none)
-FirstFor(r, u) == LET S == {j \in 1..Len(out[r]) : out[r][j].u = u /\ out[r][j].op \in {"command", "sync"} /\ ~LostInFlight(out[r][j])}
-                  IN IF S = {} THEN 0 ELSE MinOf(S)
+ForLane(x, u) == x.u = u /\ x.op \in {"command", "sync"}
+\* the outstanding command e (or the oldest outstanding sync) of r for node u before which only lost envelopes wait (0: none)
+FirstFor(r, u, op, e) ==
+    LET S == {j \in 1..Len(out[r]) : /\ ForLane(out[r][j], u) /\ out[r][j].op = op /\ (op = "command" => out[r][j].e = e)
+                                      /\ \A k \in 1..(j - 1) : ForLane(out[r][k], u) => LostInFlight(out[r][k])}
+    IN IF S = {} THEN 0 ELSE MinOf(S)
+\* ... taken out, together with the lost ones before it
+TakeOut(r, u, j) == LET keep == {k \in 1..Len(out[r]) : ~(k <= j /\ ForLane(out[r][k], u))}
+                        RECURSIVE Build(_)
+                        Build(k) == IF k > Len(out[r]) THEN <<>> ELSE (IF k \in keep THEN <<out[r][k]>> ELSE <<>>) \o Build(k + 1)
+                    IN Build(1)
 FirstOp(r, u, ops) == LET S == {j \in 1..Len(out[r]) : out[r][j].u = u /\ out[r][j].op \in ops}
                       IN IF S = {} THEN 0 ELSE MinOf(S)
 WithInst(u, rec) == [ins EXCEPT ![u] = rec]
 Ended(rec) == IF rec.ag /\ rec.rt THEN [rec EXCEPT !.st = "ended"] ELSE [rec EXCEPT !.st = "stopping"]
 
 Step(e) ==
-    \/ /\ e.k = "connect" /\ rm[e.r] \in {"none", "closed"}
+    \/ /\ e.k = "connect" /\ rm[e.r] \in {"none", "closed", "shut"}
        /\ rm' = [rm EXCEPT ![e.r] = "open"] /\ out' = [out EXCEPT ![e.r] = <<>>] /\ addr' = [addr EXCEPT ![e.r] = {}]
        /\ UNCHANGED <<cid, exp, open, ins, shut, fin, owe>>
     \/ /\ e.k = "send" /\ rm[e.r] = "open" /\ e.u \in DOMAIN exp
@@ -76,7 +84,7 @@ Step(e) ==
        /\ UNCHANGED <<cid, exp, open, out, ins, addr, shut, fin, owe>>
     \/ /\ e.k = "disconnect" /\ rm[e.r] # "open" /\ UNCHANGED st
     \/ /\ e.k = "shutdown" /\ shut' = TRUE /\ UNCHANGED <<cid, exp, open, rm, out, ins, addr, fin, owe>>
-    \/ /\ e.k \in {"timeout", "fail", "release", "hold", "finish", "advance", "pause", "resume", "send_at", "sent_at", "skip", "rt_open"}
+    \/ /\ e.k \in {"timeout", "fail", "release", "hold", "finish", "advance", "pause", "resume", "send_at", "skip", "rt_open", "start_agent", "start_result"}
        /\ UNCHANGED st
     \/ /\ e.k = "settle"
        /\ owe = {}
@@ -84,14 +92,14 @@ Step(e) ==
              \A j \in 1..Len(out[r]) :
                 LET x == out[r][j] IN
                 IF ~Routed(x.u) THEN x.op = "command"                                    \* P3: everything else was answered
-                ELSE x.op = "unlink" \/ shut \/ LostInFlight(x) \/ Waiting(x)             \* P4
+                ELSE x.op = "unlink" \/ shut \/ LostInFlight(x)                          \* P4
        /\ out' = [r \in Rs |-> IF rm[r] # "open" THEN <<>> ELSE
-                                 SelectSeq(out[r], LAMBDA x : Routed(x.u) /\ x.op # "unlink" /\ ~shut /\ ~LostInFlight(x) /\ Waiting(x))]
+                                 SelectSeq(out[r], LAMBDA x : Routed(x.u) /\ x.op # "unlink" /\ ~shut /\ Waiting(x))]
        /\ ins' = [u \in DOMAIN ins |-> IF ins[u].st = "ended" THEN [ins[u] EXCEPT !.st = "gone"] ELSE ins[u]]
        /\ UNCHANGED <<cid, exp, open, rm, addr, shut, fin, owe>>
     \/ /\ e.k = "agent_run" /\ ~fin
        /\ Routed(e.u)                                                                     \* P3: nothing started without a route
-       /\ e.route = exp[e.u].route /\ Fn(e.params) = Fn(exp[e.u].params)                  \* P2
+       /\ e.route = exp[e.u].route /\ e.params = exp[e.u].params                  \* P2
        /\ ins[e.u].st \in {"none", "ended", "gone"}                                       \* P1
        /\ e.n = ins[e.u].n + 1
        /\ ins' = WithInst(e.u, [n |-> e.n, st |-> "live", ag |-> FALSE, rt |-> FALSE, up |-> FALSE])
@@ -101,11 +109,9 @@ Step(e) ==
        /\ UNCHANGED <<cid, exp, open, rm, out, addr, shut, fin, owe>>
     \/ /\ e.k = "deliver" /\ ~fin
        /\ e.n = ins[e.u].n /\ ins[e.u].st = "live" /\ ins[e.u].up                         \* P4: never to a dead instance
-       /\ LET C == IF e.op = "command"
-                   THEN {r \in Rs : FirstFor(r, e.u) # 0 /\ out[r][FirstFor(r, e.u)].op = "command" /\ out[r][FirstFor(r, e.u)].e = e.e}
-                   ELSE {r \in Rs : FirstFor(r, e.u) # 0 /\ out[r][FirstFor(r, e.u)].op = "sync"}
+       /\ LET C == {r \in Rs : FirstFor(r, e.u, e.op, e.e) # 0}
           IN /\ C # {}                                                                    \* P2: sent to this node, once, in order
-             /\ LET r == MinOf(C) IN out' = [out EXCEPT ![r] = RemoveAt(@, FirstFor(r, e.u))]
+             /\ LET r == MinOf(C) IN out' = [out EXCEPT ![r] = TakeOut(r, e.u, FirstFor(r, e.u, e.op, e.e))]
        /\ UNCHANGED <<cid, exp, open, rm, ins, addr, shut, fin, owe>>
     \/ /\ e.k = "stopping" /\ e.n = ins[e.u].n /\ ins[e.u].st \in {"live", "stopping"}
        /\ ins' = WithInst(e.u, [ins[e.u] EXCEPT !.st = "stopping"])
@@ -152,12 +158,15 @@ Step(e) ==
     \/ /\ e.k = "end" /\ fin /\ \A r \in Rs : rm[r] # "open"                              \* P5
        /\ UNCHANGED st
 
+\* every node URI an event names is one the execution's header knows
+UOk(e) == IF Has(e, "u") THEN e.u \in DOMAIN exp ELSE TRUE
+
 TraceNext == /\ i <= Len(Rec)
              /\ LET e == Rec[i] IN
                 \/ /\ e.k = "reset" /\ Reset(e) /\ dead' = FALSE
                 \/ /\ e.k # "reset" /\ dead /\ UNCHANGED st /\ dead' = dead
-                \/ /\ e.k # "reset" /\ ~dead /\ Step(e) /\ dead' = FALSE
-                \/ /\ e.k # "reset" /\ ~dead /\ ~ENABLED Step(e)
+                \/ /\ e.k # "reset" /\ ~dead /\ UOk(e) /\ Step(e) /\ dead' = FALSE
+                \/ /\ e.k # "reset" /\ ~dead /\ (~UOk(e) \/ ~ENABLED Step(e))
                    /\ PrintT(<<"REJECT", ToJson([id |-> cid, at |-> i, ev |-> e])>>)
                    /\ UNCHANGED st /\ dead' = TRUE
              /\ i' = i + 1
